@@ -131,6 +131,7 @@ Inductive pkind :=
 
 Record fout := FO {
   fo_json : str;             (* json_name *)
+  fo_name : str;             (* the proto field name *)
   fo_number : N;
   fo_kind : pkind;
   fo_rep : bool;             (* LABEL_REPEATED *)
